@@ -432,7 +432,12 @@ func (u *upstream) doSlotsRefresh() error {
 	u.MakeRequestToHost(addr, req)
 
 	// wait done
-	req.Wait()
+	// NOTE: the backend may never answer, don't block the shutdown.
+	select {
+	case <-req.done:
+	case <-u.quit:
+		return errors.New(upstreamExited)
+	}
 	resp := req.Response()
 	if resp.Type == Error {
 		return errors.New(string(resp.Text))
